@@ -272,6 +272,7 @@ NATIVE_EXC = (TypeError, ValueError, IndexError, KeyError, AttributeError, ZeroD
               OverflowError, StopIteration, UnicodeError, OSError, ArithmeticError, AssertionError, NameError)
 
 
+AND_MINUS_ONE_WIDTHS = (16, 64, 256)
 EXECUTED = set()      # repo functions whose real body was executed symbolically in this process (evidence only)
 
 
@@ -1639,6 +1640,18 @@ class Interp:
                     for i in range(w):
                         tot = tot + z3.If((y / (1 << i)) % 2 == 1, ((x / (1 << i)) % 2) * (1 << i), 0)
                     return tot
+        # x & (x - 1) for 0 <= x < 2**w: the result r satisfies 0 <= r <= x and (r == 0 iff x is 0 or a power of two).  That is
+        # the theory lemma `bv.x-and-x-minus-one[w]`, discharged in bit-vector mode for every width of AND_MINUS_ONE_WIDTHS
+        # on every run of the properties that use it (contracts/l_bits.py); nothing else is known about r.
+        for (x, y) in ((a, b), (b, a)):
+            dd = z3.simplify(x - y - 1)
+            if z3.is_int_value(dd) and dd.as_long() == 0:
+                for w in AND_MINUS_ONE_WIDTHS:
+                    if not ctx.feasible(z3.Not(z3.And(0 <= x, x < (1 << w)))):
+                        r_ = ctx.fresh('and_minus_one')
+                        ctx.assume([0 <= r_, r_ <= x, (r_ == 0) == z3.Or([x == 0] + [x == (1 << k) for k in range(w)])])
+                        ctx.event('theory-lemma', 'bv.x-and-x-minus-one[%d]' % w)
+                        return r_
         W = None
         for w in (8, 16, 32):
             if not ctx.feasible(z3.Not(z3.And(0 <= a, a < (1 << w), 0 <= b, b < (1 << w)))):
